@@ -7,6 +7,7 @@ import (
 	"fmt"
 	"reflect"
 	"sort"
+	"time"
 	"unsafe"
 
 	"github.com/blues/jsonata-go/jparse"
@@ -27,6 +28,15 @@ const (
 
 func vpoint(kind uint8, loc unsafe.Pointer) {
 	verifhook.Point(kind, loc)
+}
+
+// vclock returns the harness clock's reading when the harness owns the clock
+// that is read once per evaluation.
+func vclock() (time.Time, bool) {
+	if c := verifhook.Clock; c != nil {
+		return c(), true
+	}
+	return time.Time{}, false
 }
 
 // vmap returns the identity of a registry map (nil for a nil map), so that two
